@@ -237,11 +237,70 @@ func (pc *pathCons) CheckField(fn *ssa.Function, f, pin *types.Var, mode string)
 	}
 	reach := reachableAvoidingSet(fn.Blocks[0], wb, pins)
 	for _, r := range success {
-		if reach[r.Block()] {
-			return false, r.Pos(), len(success)
+		if !reach[r.Block()] {
+			continue
 		}
+		// `err := f(); if err == nil { x.f = v }; return err`: the paths on
+		// which the returned error is known to be non-nil are failing paths,
+		// although they end in the same return as the successful one
+		if mode == "nilerr" && len(r.Results) > 0 {
+			ev, _ := retResult(r, len(r.Results)-1)
+			if ev != nil && isErrorType(ev.Type()) {
+				skip := map[[2]*ssa.BasicBlock]bool{}
+				for e := range pins {
+					skip[e] = true
+				}
+				for e := range nonNilEdgesOf(fn, ev) {
+					skip[e] = true
+				}
+				if !reachableAvoidingSet(fn.Blocks[0], wb, skip)[r.Block()] {
+					continue
+				}
+			}
+		}
+		return false, r.Pos(), len(success)
 	}
 	return true, fn.Pos(), len(success)
+}
+
+// nonNilEdgesOf: the edges of fn on which v (an error value, or one of the
+// values it is a phi of) is known to be non-nil.
+func nonNilEdgesOf(fn *ssa.Function, v ssa.Value) map[[2]*ssa.BasicBlock]bool {
+	out := map[[2]*ssa.BasicBlock]bool{}
+	vals := map[ssa.Value]bool{v: true}
+	if ph, ok := v.(*ssa.Phi); ok {
+		for _, e := range ph.Edges {
+			vals[e] = true
+		}
+	}
+	for _, b := range fn.Blocks {
+		if len(b.Instrs) == 0 {
+			continue
+		}
+		ifi, ok := b.Instrs[len(b.Instrs)-1].(*ssa.If)
+		if !ok {
+			continue
+		}
+		bo, ok := ifi.Cond.(*ssa.BinOp)
+		if !ok || (bo.Op != token.NEQ && bo.Op != token.EQL) {
+			continue
+		}
+		other := bo.X
+		if isNilConst(bo.X) {
+			other = bo.Y
+		} else if !isNilConst(bo.Y) {
+			continue
+		}
+		if !vals[other] {
+			continue
+		}
+		if bo.Op == token.NEQ {
+			out[[2]*ssa.BasicBlock{b, b.Succs[0]}] = true
+		} else {
+			out[[2]*ssa.BasicBlock{b, b.Succs[1]}] = true
+		}
+	}
+	return out
 }
 
 // typeIsConstructed: is there a composite literal / new of the struct type in the module?
